@@ -9,3 +9,4 @@ import DafRel.Props.C05
 #print axioms DafRel.Props.C05.finishApply_rejects_only_unsupported
 #print axioms DafRel.Props.C05.bridge_Slice_then
 #print axioms DafRel.Props.C05.bridge_Slice_new
+#print axioms DafRel.Props.C05.bridge_simplify_methods
